@@ -103,8 +103,8 @@ func trap(f func() error) (outcome string, errtext string) {
 	return "returned", ""
 }
 
-var dotNode = regexp.MustCompile(`^  (\S+) \[shape="[^"]*", style="[^"]*", color="[^"]*", fillcolor="[^"]*", label=<.*> \]$`)
-var dotEdge = regexp.MustCompile(`^  (\S+) -> (\S+) \[ color="[^"]*" label = <.*> \]$`)
+var dotNode = regexp.MustCompile(`^  (\S*) \[shape="[^"]*", style="[^"]*", color="[^"]*", fillcolor="[^"]*", label=<.*> \]$`)
+var dotEdge = regexp.MustCompile(`^  (\S*) -> (\S*) \[ color="[^"]*" label = <.*> \]$`)
 
 func parseDot(s string) O {
 	nodes, edges, unparsed := T{}, T{}, T{}
